@@ -612,7 +612,8 @@ func c05JudgeText(c *Ctx, fc fmtCase, after string) (kind, detail string) {
 				longest = w
 			}
 			if p.Amount != nil && p.Status == ast.StatusNone {
-				amts = append(amts, pl{ln, p.Amount.Range.Start.Column - 1, text})
+				// AST columns count UTF-16 units; alignment is judged in characters
+				amts = append(amts, pl{ln, runeColOfU16(text, p.Amount.Range.Start.Column-1), text})
 			}
 		}
 	}
@@ -666,4 +667,21 @@ func textFeatures(text string) []string {
 		}
 	}
 	return out
+}
+
+// runeColOfU16 converts a UTF-16 column of a line into a character (rune) column.
+func runeColOfU16(line string, u16 int) int {
+	u, n := 0, 0
+	for _, r := range line {
+		if u >= u16 {
+			break
+		}
+		if r >= 0x10000 {
+			u += 2
+		} else {
+			u++
+		}
+		n++
+	}
+	return n
 }
